@@ -6,21 +6,8 @@
    successor of u, statuses (A,B)); and the three outputs of the loop -- the count rows,
    the node_history appends, the transmissions -- are projections of that one log. *)
 From EoNV Require Import Prelude Samp Graph ListDict ListDictP Gillespie KldP GillespieInv SampP Simple SimpleP SimpleExecS SimpleExec.
+From EoNV Require Export GenxChk.
 From Coq Require Import Permutation Lqa.
-
-Record gev := mkEv { ge_t : Q; ge_node : node; ge_old : N; ge_new : N; ge_src : option node }.
-
-Definition ev3 (e : gev) : Q * node * N := (ge_t e, ge_node e, ge_new e).
-Definition ev_tx (e : gev) : list (Q * option node * node) :=
-  match ge_src e with Some u => [(ge_t e, Some u, ge_node e)] | None => [] end.
-
-Definition census (g : graph) (rstat : list N) (st : node -> N) : list Z := map (count_status g st) rstat.
-
-Fixpoint ev_rows (g : graph) (rstat : list N) (st : node -> N) (evs : list gev) : list row :=
-  match evs with
-  | [] => []
-  | e :: r => let st' := fupdN st (ge_node e) (ge_new e) in (ge_t e, census g rstat st') :: ev_rows g rstat st' r
-  end.
 
 Lemma ev_rows_app : forall g rstat a st b,
   ev_rows g rstat st (a ++ b) =
